@@ -36,6 +36,11 @@ class GramEval:
                     vals.append(path.ret)
         self._busy.discard(nt)
         v = self.join(vals)
+        # a nonterminal whose every alternative hands up one of its own lookaround positions (`<p:@L> "}" => p`):
+        # remember which, so that a rule about positions can see through the wrapper
+        looks = {getattr(x.ok if isinstance(x, Res) else x, "look", None) for x in vals}
+        if isinstance(v, Num) and len(looks) == 1 and None not in looks and len(self.G.productions(nt)) == 1:
+            v.look_in = (nt, next(iter(looks)))
         self._ntval[nt] = v
         return v
 
@@ -162,7 +167,10 @@ class GramEval:
             for name, v in zip(a["arg_names"], vals):
                 if name and name != "_":
                     if isinstance(v, Num) and getattr(v, "look", None) is None:
+                        li = getattr(v, "look_in", None)
                         v = Num(v.ty, p_var(name), v.src)  # polynomials are written over the action's own argument names
+                        if li is not None:
+                            v.look_in = li
                     if isinstance(v, Str) and getattr(v, "lenpoly", None) is not None:
                         # the length of a text handed up by a nonterminal, over this action's own names: the single token
                         # length it is made of becomes len(<name>~); anything else is not tracked
